@@ -109,6 +109,14 @@ New == /\ l = 0 /\ Len(Hist[h].ev) > 0 /\ Ev.op = "new"
                /\ ok' = (Ev.o = "err")                    \* rejected with an error: never rates, never a panic
                /\ why' = "new:" \o b.phase
        /\ l' = 1 /\ UNCHANGED h
+\* a market observed mid-life (traces of the crate's own tests record the object at the entry of update / set_ad_order):
+\* it must be the market built from its current quotes with its first currency as base, at its current order
+Given == /\ l = 0 /\ Len(Hist[h].ev) > 0 /\ Ev.op = "given"
+         /\ LET b == BuildMk(Ev.quotes, Ev.base) IN
+            /\ st' = b /\ qs' = Ev.quotes /\ order' = Ev.state.order /\ pl' = 1
+            /\ ok' = (b.phase = "ready" /\ StateOK(b, Ev.quotes, Ev.state.order, Ev.state))
+            /\ why' = "given"
+         /\ l' = 1 /\ UNCHANGED h
 \* update: refused without changing anything, or rebuilt from the latest quotes at order 1
 Upd == /\ Prop # "C09" /\ l > 0 /\ ok /\ l < Len(Hist[h].ev) /\ Ev.op = "update" /\ st.phase = "ready"
        /\ IF KnownAll(qs, Ev.quotes) /\ BuildMk(ApplyUpd(qs, Ev.quotes, 1), <<st.idx[1]>>).phase = "ready"
@@ -128,7 +136,7 @@ SetOrd == /\ Prop # "C09" /\ l > 0 /\ ok /\ l < Len(Hist[h].ev) /\ Ev.op = "set_
 \* a history is finished when every event is consumed (or it was rejected); any other state without a successor
 \* is reported by TLC as a deadlock, i.e. an event the specification has no action for
 Finish == (l = Len(Hist[h].ev) \/ ~ok \/ (Prop = "C09" /\ l >= 1)) /\ UNCHANGED vars
-Next == New \/ Upd \/ SetOrd \/ Finish
+Next == New \/ Given \/ Upd \/ SetOrd \/ Finish
 Accepted == ok
 \* the judge is the DECLARATIVE layer: whenever the specification's construction ends ready its exponents are
 \* the signed tree paths, and it rejects only quote sets that are not trees (checked here for every validated
